@@ -13,6 +13,7 @@
 (*              days (CropRel!GDD, methods 1-3) and the linear water-stress    *)
 (*              coefficients 1 - Drel                                         *)
 (*   inverse    growth(required_time(c)) = c                                  *)
+(*   pure       a second evaluation in reverse order gives the same values     *)
 (* TLC cannot recompute exp/log: for those kernels it is the evaluator of the  *)
 (* recorded lattice against the contract, not a prover.                       *)
 (***************************************************************************)
@@ -59,10 +60,13 @@ ExactBad(s) == CASE s.kind = "gdd" -> {i \in 1..Len(Pts(s)) : ~Near(Val(Pts(s)[i
                  [] s.kind = "inverse" -> {i \in 1..Len(Pts(s)) : ~Near(Val(Pts(s)[i]), Arg(Pts(s)[i]), Tiny(100000))}
                  [] OTHER -> {}
 
+\* a response FUNCTION: the second evaluation of the sweep (arguments in reverse order) reproduces the first, point by point
+PureBad(s) == IF Has(s, "again") THEN {i \in 1..Len(Pts(s)) : i > Len(s.again) \/ Val(Pts(s)[i]) # s.again[i]} ELSE {}
+
 Judge(s) ==
-  IF ~AllFin(s) THEN [ok |-> FALSE, finite |-> FALSE, range |-> {}, mono |-> {}, bound |-> {}, exact |-> {}, ordered |-> TRUE, n |-> Len(Pts(s))]
-  ELSE LET r == RangeBad(s) m == MonoBad(s) b == BoundBad(s) x == ExactBad(s) IN
-       [ok |-> r = {} /\ m = {} /\ b = {} /\ x = {} /\ Ordered(s), finite |-> TRUE, range |-> r, mono |-> m, bound |-> b, exact |-> x,
+  IF ~AllFin(s) THEN [ok |-> FALSE, finite |-> FALSE, range |-> {}, mono |-> {}, bound |-> {}, exact |-> {}, pure |-> {}, ordered |-> TRUE, n |-> Len(Pts(s))]
+  ELSE LET r == RangeBad(s) m == MonoBad(s) b == BoundBad(s) x == ExactBad(s) u == PureBad(s) IN
+       [ok |-> r = {} /\ m = {} /\ b = {} /\ x = {} /\ u = {} /\ Ordered(s), finite |-> TRUE, range |-> r, mono |-> m, bound |-> b, exact |-> x, pure |-> u,
         ordered |-> Ordered(s), n |-> Len(Pts(s))]
 
 RInit == sid \in 1..NS /\ verdict = Judge(Sweeps[sid])
